@@ -51,6 +51,12 @@ APIS = ["load", "consult"]
 COUNTERS = ["heap_cells", "stack_top", "trail_len", "load_contexts", "inactive_load_states", "f64_entries", "atoms_with_prefix"]
 
 
+def relsrc(where):
+    f = where.rsplit(":", 1)[0]
+    k = f.find("src/")
+    return f[k:] if k > 0 else f
+
+
 def bound_text(tier):
     return "%s programs x 2 load APIs x 1..4 loads" % ("all 1024" if tier == "thorough" else "57 (empty, singles, pairs, all)")
 
@@ -97,7 +103,7 @@ def run_program(w, sub, api, other=None):
         for step in h:
             if "panic" in step:
                 import re
-                v.append(("panic@%s: %s" % (step.get("where", "").replace("/repo/", "").rsplit(":", 1)[0],
+                v.append(("panic@%s: %s" % (relsrc(step.get("where", "")),
                                             re.sub(r"\d+", "N", step["panic"])[:80]), step))
                 return v
     fp1 = h1[1]
